@@ -65,4 +65,6 @@ def run_cli_subprocess(args, cwd=None, env_extra=None, timeout=300):
 				env[k] = v
 	p = subprocess.run([sys.executable, '-m', 'gambit'] + [str(a) for a in args], cwd=cwd, env=env,
 	                   stdout=subprocess.PIPE, stderr=subprocess.PIPE, timeout=timeout)
-	return CliResult(p.returncode, p.stdout.decode('utf-8', 'replace'), p.stderr.decode('utf-8', 'replace'))
+	res = CliResult(p.returncode, p.stdout.decode('utf-8', 'replace'), p.stderr.decode('utf-8', 'replace'))
+	res.stdout_bytes = p.stdout
+	return res
